@@ -26,8 +26,11 @@ _HANDED_BLOCKS = []
 def patterns():
     from cspuz.generator import Choice, ArrayBuilder2D, SegmentationBuilder2D
     def arr(h, w, choice, sym=False, adj=False, move=False):
+        # adj: False, True (the four orthogonal offsets) or an explicit list of (dy, dx) offsets
+        offsets = [[-1, 0], [1, 0], [0, -1], [0, 1]] if adj is True else [] if adj is False else [list(o) for o in adj]
         return (lambda: ArrayBuilder2D(h, w, choice, default=0, symmetry=sym, disallow_adjacent=adj, use_move=move),
-                {"kind": "array", "h": h, "w": w, "choice": list(choice), "default": 0, "symmetry": sym, "adjacent": adj, "move": move},
+                {"kind": "array", "h": h, "w": w, "choice": list(choice), "default": 0, "symmetry": sym,
+                 "adjacent": bool(offsets), "offsets": offsets, "move": move},
                 flat)
     def seg(h, w, b, initial_blocks=None):
         def mk():
@@ -50,6 +53,8 @@ def patterns():
         "C": arr(1, 2, [0, 1, 2]),
         "D": arr(2, 2, [0, 1], sym=True),
         "E": arr(1, 3, [0, 1], adj=True),
+        "E2": arr(3, 3, [0, 1], adj=[(-1, -1), (-1, 1), (1, -1), (1, 1)]),          # diagonal neighbours only
+        "E3": arr(2, 3, [0, 1, 2], sym=True, adj=[(0, 1), (0, -1), (1, 1), (-1, -1)]),
         "F": arr(2, 2, [0, 1, 2], move=True),
         "G": arr(2, 3, [0, 1, 2], sym=True, adj=True, move=True),
         "G2": arr(3, 3, [0, 1, 2], sym=True, adj=True),
